@@ -166,6 +166,11 @@ def gen_wc_cases(tier, seed):
         for i, plan in enumerate(plist):
             yield {'wc': True, 'name': 'wc:' + name, 'program': prog, 'plan': plans.uniq(plan, 'w%d' % i), 'drain': True, 'probe': True, 'barrage': False,
                    'listener': True}
+        # the work chain is one recreated from the checkpoint of a freshly created one, killed before / around its first step
+        for i, plan in enumerate([p for p in plans.all_placements(min(n, 3), [['kill', 'k'], ['pause', 'p'], ['cancel_future']], 2) if _has_kill(p)]
+                                 + [[{'at': s, 'act': ['kill', 'k']}] for s in range(0, min(n, 3) + 1)]):
+            yield {'wc': True, 'name': 'wc:' + name, 'program': prog, 'plan': plans.uniq(plan, 'wr%d' % i), 'drain': True, 'probe': True, 'barrage': False,
+                   'listener': True, 'recreate': 'created'}
 
 
 def _kill_phase(a):
